@@ -330,16 +330,82 @@ def _pair_text(p: dict, eo, ei):
     return "".join(parts), len(plain), salt_at, wrapped_at
 
 
+# key locators of kinds the reader does not implement (its comment lists rawkey, ldap, script, role, fqid), identifiers that are no
+# kind at all, and the supported identifiers in another case. The exact VMware syntax behind the identifier does not matter to a
+# reader that stops at the identifier; the bodies below only have to survive the list / pair splitting (structural characters escaped).
+FOREIGN_KINDS = ["rawkey", "fqid", "ldap", "script", "role", "tpm", "null", "Phrase", "PAIR", "List"]
+FOREIGN_SHAPES = ["member", "pair", "pair-list", "pair-pair", "list", "list-pair"]
+
+
+def _foreign_locator(f: dict, eo, ei) -> str:
+    k, blob = f["kind"], bytes.fromhex(f["blob"])
+    if k == "rawkey":
+        return "rawkey/" + eo("type=key:cipher=%s:key=%s" % (ei("AES-256"), ei(_b64(blob[:32]))))
+    if k == "fqid":
+        return "fqid/" + eo("<VMWARE-NULL>/kmip-cluster-1/" + blob[:16].hex())
+    if k == "ldap":
+        return "ldap/" + eo("ldap.example.org") + "/" + eo("dc=example,dc=org") + "/389/" + eo("cn=vmkeys (prod)")
+    if k == "script":
+        return "script/" + eo("/usr/lib/vmware/bin/getkey.sh") + "/" + eo(_b64(blob[:20]))
+    if k == "role":
+        return "role/" + eo(f.get("role", "obfuscation"))
+    if k == "tpm":
+        return "tpm/" + eo(_b64(blob[:24]))
+    if k == "null":
+        return "null"
+    if k == "Phrase":                               # a complete, valid phrase locator — but the identifier is spelled `Phrase`
+        t = _pair_text(f["pair"], eo, ei)[0]
+        return "Phrase/" + t[len("pair/(phrase/"):t.index(",")]
+    if k in ("PAIR", "List"):                       # handled by the shapes (the identifier of the wrapper is respelled)
+        return _pair_text(f["pair"], eo, ei)[0].replace("pair/(", k + "/(" if k == "PAIR" else "pair/(", 1)
+    raise ValueError(f"unknown foreign kind {k}")
+
+
+def foreign_member(f: dict, eo, ei) -> str:
+    """text of one key-safe list member that is, wraps or contains a key locator of an unsupported kind.
+    f: kind (FOREIGN_KINDS), shape (FOREIGN_SHAPES), blob (hex, filler), mac, pair (a full pair recipe used where the shape
+    needs a *supported* sibling or where the foreign thing is a respelled supported one)"""
+    loc, sh = _foreign_locator(f, eo, ei), f["shape"]
+    data = eo(_b64(bytes.fromhex(f["blob"])))
+    good = _pair_text(f["pair"], eo, ei)[0]
+    good_phrase = good[len("pair/("):good.index(",")]
+    lst = "List" if f["kind"] == "List" else "list"
+    if f["kind"] == "List" and sh in ("member", "pair", "pair-pair"):
+        sh = "list"                                  # a respelled `list` needs a list to be
+    if sh == "member":
+        return loc
+    if sh == "pair":                                # a pair whose key locator is foreign
+        return "pair/(%s,%s,%s)" % (loc, eo(f["mac"]), data)
+    if sh == "pair-list":                           # a pair whose key locator is a list: a supported phrase next to the foreign one
+        return "pair/(%s/(%s,%s),%s,%s)" % (lst, good_phrase, loc, eo(f["mac"]), data)
+    if sh == "pair-pair":                           # a pair whose key locator is a pair whose key locator is foreign
+        return "pair/(pair/(%s,%s,%s),%s,%s)" % (loc, eo(f["mac"]), data, eo(f["mac"]), data)
+    if sh == "list":                                # a nested list: a supported pair and the foreign locator
+        return "%s/(%s,%s)" % (lst, good, loc) if f.get("inner_first", True) else "%s/(%s,%s)" % (lst, loc, good)
+    if sh == "list-pair":                           # a nested list: a supported pair and a pair with a foreign locator
+        return "%s/(%s,pair/(%s,%s,%s))" % (lst, good, loc, eo(f["mac"]), data)
+    raise ValueError(f"unknown foreign shape {sh}")
+
+
+def gen_foreign(rng, kind: str, shape: str, at: int) -> dict:
+    taken: set = set()
+    return {"at": at, "kind": kind, "shape": shape, "blob": rng.randbytes(rng.choice([48, 52, 64, 68])).hex(), "mac": rng.choice(list(MACS)),
+            "role": rng.choice(["obfuscation", "adminIdent", "adminRecovery", "server"]), "inner_first": rng.random() < 0.5,
+            "pair": _gen_pair(rng, rng.choice(COMBOS), False, taken)}
+
+
 def build(recipe: dict) -> dict:
     r = recipe
     e = r["esc"]
     eo = lambda s: _esc(s, e["outer"], e["upper"])
     ei = lambda s: _esc(s, e["inner"], e["upper"])
     main = r["pairs"][r["pos"]]
+    members = [(i, _pair_text(p, eo, ei)) for i, p in enumerate(r["pairs"])]
+    for f in r.get("foreign", []):                 # members of a kind the reader does not implement, at list position f["at"]
+        members.insert(f["at"], (None, (foreign_member(f, eo, ei), 0, None, None)))
     ks, rel = "vmware:key/list/(", {}
-    for i, p in enumerate(r["pairs"]):
-        s, nplain, salt_at, wrapped_at = _pair_text(p, eo, ei)
-        ks += "," if i else ""
+    for j, (i, (s, nplain, salt_at, wrapped_at)) in enumerate(members):
+        ks += "," if j else ""
         if i == r["pos"]:
             wrapped_plain_len = nplain
             rel = {"salt": (len(ks) + salt_at[0], salt_at[1]), "wrapped": (len(ks) + wrapped_at[0], wrapped_at[1])}
@@ -374,7 +440,8 @@ def build(recipe: dict) -> dict:
         assert collides(r, f["victim"], f["under"]), f"forced collision {f} does not hold"
         padvalid.append([f["victim"], f["under"]])
     return {"text": text, "passphrase": main["passphrase"], "hidden": hidden, "visible": visible, "expected": {**visible, **hidden},
-            "padvalid": padvalid,
+            "padvalid": padvalid, "foreign": [[f["at"], f["kind"], f["shape"]] for f in r.get("foreign", [])],
+            "members": [("foreign" if i is None else "main" if i == r["pos"] else "pair") for i, _ in members],
             "fields": {f: text[a:b] for f, (a, b) in spans.items()}, "spans": spans, "alt": alt, "esc": e,
             "mac_size": MACS[main["mac"]][1], "hidden_text": hidden_text, "plain_len": len(plain),
             "plain_lens": {"data": len(plain), "wrapped": wrapped_plain_len},
